@@ -187,6 +187,10 @@ class LocalIndex:
             c2 = [c for c in cands if c[0][-len(pre):] == pre]
             if c2:
                 cands = c2
+            if len(cands) > 1:
+                c3 = [c for c in cands if tuple(c[0]) == pre]
+                if c3:
+                    cands = c3
         if len(cands) == 1:
             return cands[0][1]
         if len(cands) > 1:
